@@ -52,8 +52,9 @@ Proof.
   intros p Hp. destruct (hidden_root_listed p Hp) as [e H]. exists w_hidden_root, e. split; [apply w_hidden_root_wf|exact H].
 Qed.
 
-(* No href of the site targets an object that is not visible: taglink-built links because taglink now renders only
-   the label (commit fd84d91), the others (member self-links, View In Hierarchy, url fields of all-documents and
+(* No href of the site targets an object that is not visible: taglink-built links -- including the docstring cross
+   references, whose resolver is an oracle that may return ANY registered object, hidden ones too -- because taglink
+   now renders only the label (commit fd84d91), the others (member self-links, View In Hierarchy, url fields of all-documents and
    objects.inv) because their loops filter. *)
 Theorem C12_no_link_targets_hidden : forall quote r depth ns e h, wf r ->
   In e (site_entries quote table_now r depth ns) -> link_of quote table_now r e = Some h -> visible r (e_obj e) = true.
@@ -78,15 +79,39 @@ Theorem C12_private_marked : forall quote r depth ns e,
   priv_of r (e_obj e) = PRIVATE -> e_private e = true.
 Proof. intros quote r depth ns e. exact (private_marked quote table_now r depth ns e markers_checked). Qed.
 
-(* non-vacuity: on the example registry (a PRIVATE method, a HIDDEN method, a PRIVATE module) the hidden object has no
-   entry and no link, the private ones are listed and marked *)
+(* Module.privacyClass: a module named `__main__` is PRIVATE whatever System.privacyClass (the --privacy rules) says;
+   it therefore carries the private marker in every listing producer C12 names ... *)
+Theorem C12_main_module_private : forall quote r depth ns i o, get r i = Some o ->
+  is_module_kind (o_kind o) = true -> o_name o = t_main ->
+  priv_of r i = PRIVATE /\
+  (forall e, In e (site_entries quote table_now r depth ns) -> marked_prod (e_prod e) = true -> e_obj e = i -> e_private e = true).
+Proof.
+  intros quote r depth ns i o Hg Hk Hn. pose proof (main_module_private r i o Hg Hk Hn) as Hp. split; [exact Hp|].
+  intros e Hin Hm E. subst i. exact (private_marked quote table_now r depth ns e markers_checked Hin Hm Hp).
+Qed.
+
+(* ... even a rule that says HIDDEN is overridden (the documented deviation from C13): the module is visible, has its
+   page and is listed -- marked private -- in the module index. *)
+Theorem C12_main_module_rule_ignored : exists r i,
+  wf r /\ (exists o, get r i = Some o /\ o_priv o = HIDDEN) /\ priv_of r i = PRIVATE /\ visible r i = true /\
+  In i (written table_pinned r) /\
+  existsb (fun e => Nat.eqb (e_obj e) i && N.eqb (e_prod e) P_module_index && e_private e)
+          (site_entries cquote table_pinned r 1 false) = true.
+Proof. exists w_main, 1. exact (conj w_main_wf main_rule_ignored). Qed.
+
+(* non-vacuity: on the example registry (a PRIVATE method, a HIDDEN method that a docstring cross-references, a PRIVATE
+   module) the hidden object has no listing entry and no link (the cross reference renders as plain text), the private
+   ones are listed and marked *)
 Example C12_hypotheses_satisfiable :
   wf w_example /\ visible w_example 3 = false /\ priv_of w_example 2 = PRIVATE /\
-  existsb (fun e => Nat.eqb (e_obj e) 3) (site_entries cquote table_now w_example 2 false) = false /\
+  existsb (fun e => Nat.eqb (e_obj e) 3 && N.eqb (e_prod e) P_xref) (site_entries cquote table_now w_example 2 false) = true /\
+  existsb (fun e => Nat.eqb (e_obj e) 3 &&
+                    (listing_prod (e_prod e) || match link_of cquote table_now w_example e with Some _ => true | None => false end))
+          (site_entries cquote table_now w_example 2 false) = false /\
   existsb (fun e => Nat.eqb (e_obj e) 2 && marked_prod (e_prod e) && e_private e) (site_entries cquote table_now w_example 2 false) = true /\
   existsb (fun e => Nat.eqb (e_obj e) 4 && N.eqb (e_prod e) P_module_index && e_private e) (site_entries cquote table_now w_example 2 false) = true /\
   forallb (fun e => negb (listing_prod (e_prod e)) || visible w_hidden_root (e_obj e))
           (site_entries cquote table_now w_hidden_root 1 false) = true.
 Proof.
-  split; [apply w_example_wf|]. do 5 (split; [vm_compute; reflexivity|]). vm_compute. reflexivity.
+  split; [apply w_example_wf|]. do 6 (split; [vm_compute; reflexivity|]). vm_compute. reflexivity.
 Qed.
